@@ -77,12 +77,13 @@ func (c *scriptConn) SetWriteDeadline(time.Time) error { return nil }
 
 // Entry is one decoding entry point with its corpus of valid encodings.
 type Entry struct {
-	Name  string
-	Call  func(in []byte)
-	Seeds [][]byte
-	Text  bool // input is text: mutations use text-specific classes too
-	Small bool // small parser: exhaustively fed every 1- and 2-byte input
-	Large bool // corpus of large crafted packets: only seeds, truncations and sparse corruption
+	Name   string
+	Call   func(in []byte)
+	Seeds  [][]byte
+	Text   bool // input is text: mutations use text-specific classes too
+	Small  bool // small parser: exhaustively fed every 1- and 2-byte input
+	Large  bool // corpus of large crafted packets: only seeds, truncations and sparse corruption
+	Framed bool // SMB command or message encodings: frame-aware mutations of the data block as well (framed.go)
 }
 
 // pointerAmplification builds DNS-style packets (NBNS when nb, else LLMNR) in which one record
@@ -226,7 +227,7 @@ func buildEntries() []Entry {
 				allMsgs = append(allMsgs, append(hb, b...))
 			}
 		}
-		add("cmd."+s.Name+".Unmarshal", seeds, func(in []byte) { c := s.New(); c.Unmarshal(in) })
+		es = append(es, Entry{Name: "cmd." + s.Name + ".Unmarshal", Seeds: seeds, Framed: true, Call: func(in []byte) { c := s.New(); c.Unmarshal(in) }})
 		add("cmd."+s.Name+".Unmarshal+use", seeds, func(in []byte) {
 			c := s.New()
 			if _, err := c.Unmarshal(in); err == nil {
@@ -261,7 +262,7 @@ func buildEntries() []Entry {
 			}
 		}
 	}
-	add("message.Unmarshal", allMsgs, func(in []byte) { message.NewMessage().Unmarshal(in) })
+	es = append(es, Entry{Name: "message.Unmarshal", Seeds: allMsgs, Framed: true, Call: func(in []byte) { message.NewMessage().Unmarshal(in) }})
 	add("message.Unmarshal+use", allMsgs, func(in []byte) {
 		m := message.NewMessage()
 		if err := m.Unmarshal(in); err == nil {
@@ -539,7 +540,7 @@ func buildEntries() []Entry {
 	// ---------------- LDAP helpers
 	sid := []byte{1, 5, 0, 0, 0, 0, 0, 5, 21, 0, 0, 0, 1, 2, 3, 4, 5, 6, 7, 8, 9, 10, 11, 12, 0xF4, 1, 0, 0}
 	add("ldap.ParseSIDFromBytes", [][]byte{sid, {1, 1, 0, 0, 0, 0, 0, 5, 18, 0, 0, 0}, {1, 0, 0, 0, 0, 0, 0, 5}}, func(in []byte) { ldap.ParseSIDFromBytes(in) })
-	addText("ldap.GetDomainFromDistinguishedName", strs("CN=User,OU=x,DC=corp,DC=local", "DC=a", "CN=a\\,DC=b,DC=c"), func(in []byte) { ldap.GetDomainFromDistinguishedName(string(in)) })
+	addText("ldap.GetDomainFromDistinguishedName", strs("CN=User,OU=x,DC=corp,DC=local", "DC=a", "CN=a\\,DC=b,DC=c", "CN=Doe\\2C John,OU=a\\+b,DC=corp\\2Cx,DC=com", "DC=x\\2C", "DC=a\\5Cb,DC=c\\", "CN=#04024869,DC=x\\C3\\A9"), func(in []byte) { ldap.GetDomainFromDistinguishedName(string(in)) })
 	addText("ldap.ConvertLDAPTimeStampToUnixTimeStamp", strs("132000000000000000", "0", "9223372036854775807", "-1"), func(in []byte) { ldap.ConvertLDAPTimeStampToUnixTimeStamp(string(in)) })
 	addText("ldap.ConvertLDAPDurationToSeconds", strs("-864000000000", "-9223372036854775808", "0"), func(in []byte) { ldap.ConvertLDAPDurationToSeconds(string(in)) })
 
